@@ -684,4 +684,124 @@ Qed.
 
 End Make.
 
+(** ** grid_to_table *)
+
+(** one row per cell, row-major, each row holding the cell's coordinates,
+    extra coordinates and every variable *)
+Theorem table_rows (g : grid V) d0 d1 (north east : list V) :
+  aligned_grid g d0 d1 north east ->
+  let nn := length north in
+  let ne := length east in
+  let extras := filter (is_extra d0 d1) (grid_coords g) in
+  exists t, grid_to_table g = Some t /\
+    map fst t = d0 :: d1 :: map fst extras ++ map fst (grid_vars g) /\
+    Forall (fun c => length (snd c) = nn * ne) t /\
+    forall k, k < nn * ne ->
+      table_row t k =
+        nth_error north (k / ne) :: nth_error east (k mod ne)
+        :: map (fun p => coord_cell (snd p) (k / ne) (k mod ne)) extras
+        ++ map (fun p => cell (v_rows (snd p)) (k / ne) (k mod ne)) (grid_vars g).
+Proof.
+  intros ((nm & v0 & rest & Hv & Hd0) & Hn & He & FV & FC). cbv zeta.
+  unfold grid_to_table.
+  destruct (grid_vars g) as [|[nm' v0'] rest'] eqn:EV; [discriminate|].
+  injection Hv as -> -> ->. cbv beta iota.
+  rewrite Hd0. cbn [fst snd]. rewrite Hn, He. cbn [coord_values].
+  set (vars := (nm, v0) :: rest) in *.
+  set (extras := filter (is_extra d0 d1) (grid_coords g)).
+  assert (FX: forall p, In p extras -> exists v, snd p = Aux v /\ v_dims v = (d0, d1) /\
+                rect (length north) (length east) (v_rows v) = true).
+  { intros p Hp. apply filter_In in Hp as [Hp1 Hp2]. rewrite Forall_forall in FC. apply FC; assumption. }
+  rewrite Forall_forall in FV.
+  eexists. split; [reflexivity|]. split; [|split].
+  - cbn [map fst]. rewrite map_app, !map_map. reflexivity.
+  - repeat apply Forall_cons; cbn [snd].
+    + apply length_ravel_rect. apply rect_mesh_n.
+    + apply length_ravel_rect. apply rect_mesh_e.
+    + apply Forall_app. split; apply Forall_forall; intros c Hc;
+        apply in_map_iff in Hc as (p & <- & Hp); cbn [snd].
+      * destruct (FX p Hp) as (v & -> & _ & Rv). cbn [coord_values].
+        apply length_ravel_rect. exact Rv.
+      * apply length_ravel_rect. apply (FV p Hp).
+  - intros k Hk. destruct (divmod_idx _ _ _ Hk) as (Hi & Hj & _).
+    unfold table_row. cbn [map snd]. rewrite map_app, !map_map. cbn [snd].
+    rewrite (nth_error_ravel _ _ _ _ (rect_mesh_n east north) Hk), (cell_mesh_n _ _ _ _ Hj).
+    rewrite (nth_error_ravel _ _ _ _ (rect_mesh_e east north) Hk), (cell_mesh_e _ _ _ _ Hi).
+    f_equal. f_equal. f_equal.
+    + apply map_ext_in. intros p Hp. destruct (FX p Hp) as (v & -> & _ & Rv).
+      cbn [coord_values coord_cell]. apply (nth_error_ravel _ _ _ _ Rv Hk).
+    + apply map_ext_in. intros p Hp. apply (nth_error_ravel _ _ _ _ (proj2 (FV p Hp)) Hk).
+Qed.
+
+(** ** arrays -> grid -> table *)
+
+Section Round.
+Variable close : V -> V -> bool.
+
+Theorem grid_table_roundtrip ce cn extras data dnames dims xnames ds :
+  make_xarray_grid close ce cn extras data dnames dims xnames = Some ds ->
+  data_list data <> [] ->
+  ~ In (fst dims) (extra_names_of extras xnames) ->
+  ~ In (snd dims) (extra_names_of extras xnames) ->
+  exists e n, horizontal close ce cn extras = Some (e, n) /\
+    grid_to_table (GDataset ds) =
+      Some ((fst dims, ravel (mesh_n e n)) :: (snd dims, ravel (mesh_e e n))
+            :: combine (extra_names_of extras xnames) (map (@ravel V) extras)
+            ++ combine (data_names_of data dnames) (map (@ravel V) (data_list data))).
+Proof.
+  intros H Hne N0 N1.
+  destruct (make_structure _ _ _ _ _ _ _ _ _ H) as (e & n & Hh & Hd & LX & LD & F & _ & _ & ->).
+  exists e, n. split; [exact Hh|].
+  unfold grid_to_table. cbn [grid_vars grid_coords ds_vars ds_coords].
+  destruct (combine (data_names_of data dnames) (data_list data)) as [|[nm0 a0] rest] eqn:EC.
+  { exfalso. apply Hne. apply length_zero_iff_nil.
+    apply (f_equal (@length _)) in EC. rewrite combine_length in EC. cbn in EC. lia. }
+  cbn [map fst snd v_dims]. cbv beta iota.
+  rewrite assoc_skip by exact Hd. rewrite !assoc_hit. cbn [coord_values].
+  do 3 f_equal.
+  assert (Hf: forall l : list (string * arr2),
+             ~ In (fst dims) (map fst l) -> ~ In (snd dims) (map fst l) ->
+             filter (is_extra (fst dims) (snd dims))
+               (map (fun p => (fst p, Aux (mk_var dims (snd p)))) l)
+             = map (fun p => (fst p, Aux (mk_var dims (snd p)))) l).
+  { induction l as [|[s a] l IH]; intros A B; [reflexivity|]. cbn [map filter fst snd].
+    unfold is_extra at 1. cbn [fst].
+    destruct (String.eqb_spec s (fst dims)) as [->|_]; [exfalso; apply A; left; reflexivity|].
+    destruct (String.eqb_spec s (snd dims)) as [->|_]; [exfalso; apply B; left; reflexivity|].
+    cbn [orb negb]. f_equal. apply IH; intros C; [apply A|apply B]; right; exact C. }
+  cbn [filter]. unfold is_extra at 1. cbn [fst].
+  rewrite String.eqb_refl, orb_true_r. cbn [negb].
+  unfold is_extra at 1. cbn [fst].
+  rewrite String.eqb_refl. cbn [orb negb].
+  rewrite Hf by (rewrite map_fst_combine by exact LX; assumption).
+  f_equal.
+  - rewrite map_map. cbn [fst snd coord_values v_rows].
+    apply (map_combine_snd (@ravel V)).
+  - rewrite <- (map_combine_snd (@ravel V)), EC. cbn [map fst snd v_rows]. f_equal.
+    rewrite map_map. reflexivity.
+Qed.
+
+(** on an exact 2-D meshgrid the coordinate columns are the raveled input
+    coordinate arrays themselves *)
+Theorem grid_table_roundtrip_meshgrid E N extras data dnames dims xnames ds :
+  make_xarray_grid close (A2 E) (A2 N) extras data dnames dims xnames = Some ds ->
+  rows_equal_first E -> cols_equal_first N ->
+  data_list data <> [] ->
+  ~ In (fst dims) (extra_names_of extras xnames) ->
+  ~ In (snd dims) (extra_names_of extras xnames) ->
+  grid_to_table (GDataset ds) =
+    Some ((fst dims, ravel N) :: (snd dims, ravel E)
+          :: combine (extra_names_of extras xnames) (map (@ravel V) extras)
+          ++ combine (data_names_of data dnames) (map (@ravel V) (data_list data))).
+Proof.
+  intros H HE HN Hne N0 N1.
+  destruct (grid_table_roundtrip _ _ _ _ _ _ _ _ H Hne N0 N1) as (e & n & Hh & ->).
+  cbn [horizontal] in Hh.
+  pose proof (meshgrid_from_to_1d _ _ _ _ _ _ Hh HE HN) as Hm.
+  unfold meshgrid_from_1d in Hm. destruct (forallb _ _) in Hm; [|discriminate].
+  injection Hm as -> ->. reflexivity.
+Qed.
+
+End Round.
+
 End Proofs.
